@@ -1150,3 +1150,85 @@ class kt_mask(Contract):
         if not (isinstance(ret, Arr) and ret.ndim == 2 and subs):
             return
         yield "values-of-the-Kruskal-tensor-at-the-mask-subscripts", self._col(S, a, dict(vals=ret, wsubs=subs[-1]), "vals", lambda s_: g["ACC"](g["R"], s_))
+
+
+# ======================================================================= tovec (C08: the parameter vector)
+
+@register
+class kt_tovec(Contract):
+    qual = K_ + "tovec"
+    props = ("C08",)
+    doc = ("K.tovec(include_weights) for every order, shape and rank: a vector of length R * (sum(shape) [+ 1]) holding the "
+           "weights first (when included) and then the factor matrices mode by mode, each column by column: "
+           "x[base + R * SS(m) + r * shape[m] + i] = U_m[i, r], where SS(m) = shape[0] + ... + shape[m-1] is the prefix-sum "
+           "function of the shape (defined by recursion) and base = R or 0.  Nested loop invariants (modes x components); "
+           "that every slice written lies inside the vector needs SS(m) <= SS(N), proved by induction over the modes.")
+    inline = KT_INLINE
+
+    def case_names(self):
+        return ["with-weights", "factors-only"]
+
+    def setup(self, S, case):
+        S.ctx.prefix_sums = True
+        K = sym_ktensor(S, "K")
+        a = dict(__self__=K)
+        if case == "factors-only":
+            a["include_weights"] = False
+        a["__base__"] = K.ghost["R"] if case == "with-weights" else 0
+        return a
+
+    @staticmethod
+    def _ss(S):
+        gs = S.body_ghosts.get("sum")
+        return gs[-1]["ps"] if gs else None
+
+    @staticmethod
+    def _inv(S, a, env, k, r=None):
+        K = a["__self__"]
+        g = K.ghost
+        R, Nn, base = g["R"], g["N"], a["__base__"]
+        SS = kt_tovec._ss(S)
+        if SS is None:
+            return False
+        x = N.snap(env["x"])
+        off = T.tz(env["offset"])
+        k = T.tz(k)
+        d = lambda m_: T.tz(g["shape"].fn(m_))
+        m, c, i, t = z3.Int("tv!m"), z3.Int("tv!c"), z3.Int("tv!i"), z3.Int("tv!t")
+        xv = lambda t_: T.tz(T.as_real(x.fn(t_)))
+        # POS(m, c, i): position of entry (i, c) of factor m in the vector -- a name for base + R*SS(m) + c*shape[m] + i, so
+        # that the nonlinear sub-terms stay out of the clauses that only compare positions
+        if g.get("POS_for") is not SS:
+            g["POS_for"] = SS
+            g["POS"] = z3.Function(T.fresh_name("POS"), I_, I_, I_, I_)
+            m0, c0, i0 = z3.Int("tv!m0"), z3.Int("tv!c0"), z3.Int("tv!i0")
+            S.ctx.assume(T.ForAll([m0, c0, i0], g["POS"](m0, c0, i0) == base + R * SS(m0) + c0 * d(m0) + i0, [g["POS"](m0, c0, i0)]))
+        pos = g["POS"]
+        if r is None:
+            done = m < k
+            off_exp = base + R * SS(k)
+        else:
+            r = T.tz(r)
+            done = z3.Or(m < k, z3.And(m == k, c < r))
+            off_exp = base + R * SS(k) + r * d(k)
+        cl = [T.tz(T.eq(x.shape[0], R * (SS(Nn) + (1 if a.get("include_weights", True) is not False else 0)))),
+              off == off_exp,
+              # every position written so far lies below the current offset (so the next slice overwrites none of them)
+              T.ForAll([m, c, i], z3.Implies(z3.And(0 <= m, m < Nn, 0 <= c, c < R, 0 <= i, i < d(m), done), z3.And(pos(m, c, i) >= base, pos(m, c, i) < off) if a.get("include_weights", True) is not False else pos(m, c, i) < off)),
+              T.ForAll([m, c, i], z3.Implies(z3.And(0 <= m, m < Nn, 0 <= c, c < R, 0 <= i, i < d(m), done), xv(pos(m, c, i)) == g["fm"](m, i, c)))]
+        if a.get("include_weights", True) is not False:
+            cl.append(T.ForAll([t], z3.Implies(z3.And(0 <= t, t < R), xv(t) == T.tz(K.fields["weights"].fn(t)))))
+        return z3.And(*cl)
+
+    loops = {0: dict(modifies=["x", "offset"], inv=lambda S, a, env, i: kt_tovec._inv(S, a, env, i)),
+             1: dict(modifies=["x", "offset"], inv=lambda S, a, env, i: kt_tovec._inv(S, a, env, env["__loop_indices__"][0], i))}
+
+    def ensures(self, S, a, ret):
+        K = a["__self__"]
+        g = K.ghost
+        yield "returns-a-vector", isinstance(ret, Arr) and ret.ndim == 1
+        SS = self._ss(S)
+        yield "length-uses-the-shape-sum", SS is not None
+        if SS is None or not isinstance(ret, Arr):
+            return
+        yield "layout", self._inv(S, a, dict(x=ret, offset=a["__base__"] + g["R"] * SS(g["N"])), g["N"])
